@@ -349,6 +349,8 @@ def _exc(ex):
 def features(cls, obj, PJ):
     """small deterministic feature vector of the INPUT (for signatures of findings)"""
     fs = set()
+    if cls not in ("problem", "cr"):
+        PJ = None  # plans and the other results do not carry the problem
     for v in walk(PJ) if PJ is not None else ():
         if isinstance(v, dict):
             if v.get("k") == "real" and "lo" in v and (v["lo"]["k"] == "none") != (v["hi"]["k"] == "none"):
@@ -357,6 +359,18 @@ def features(cls, obj, PJ):
                 fs.add("beyond-int64")
     if PJ is not None and any(t.get("op") == "const" for t in PJ.get("traj", [])):
         fs.add("const-traj")
+    if PJ is not None:
+        # an increase / decrease by a constant that lies outside the bounds of the fluent's type (compilers
+        # produce them by substituting static fluents; the model-building API refuses to add them)
+        ftypes = {f["name"]: dec(f["type"]) for f in PJ.get("fluents", [])}
+        effs = [e for a in PJ.get("actions", []) for e in a["effects"]] + list(PJ.get("timed_effects", []))
+        for e in effs:
+            e = dec(e.get("e", e))
+            t = ftypes.get(e["f"]["name"], {})
+            if e["kind"] in ("inc", "dec") and e["v"]["op"] == "const" and e["v"]["v"]["k"] == "n" and t.get("k") in ("int", "real"):
+                c = frac(e["v"]["v"])
+                if (t["lo"]["k"] != "none" and c < frac(t["lo"])) or (t["hi"]["k"] != "none" and c > frac(t["hi"])):
+                    fs.add("incdec-const-outside-bounds")
     try:
         if cls in ("plan", "pgr"):
             from unified_planning.plans import SequentialPlan, TimeTriggeredPlan
@@ -776,12 +790,12 @@ def warm_up():
                 "flavour": "warm-up", "compiler": "grounder"})
 
 
-def run_jobs(jobs):
+def run_jobs(jobs, nproc=6):
     if not jobs:
         return []
     slow = [j for j in jobs if j["kind"] == "ex"]
     fast = [j for j in jobs if j["kind"] != "ex"]
-    with Pool(14, initializer=warm_up, maxtasksperchild=None) as pool:
+    with Pool(nproc, initializer=warm_up) as pool:
         r1 = pool.map_async(worker, slow, chunksize=1)
         r2 = pool.map_async(worker, fast, chunksize=4)
         return r2.get() + r1.get()
@@ -820,7 +834,7 @@ def run(ctx):
     fresh = [dict(j, fresh=True) for j in g2[: 24 if q else 120]]
     fresh += [dict(j, fresh=True) for j in jobs if j["case"]["cat"] in ("ntype", "effect", "plan", "pgr") and j["case"]["form"].endswith(
         ("int:zero:seven:fluent", "assign:num:cond:forall:inst", "seq:aa:none:none", "SOLVED_SATISFICING:seq:none:none"))]
-    results = run_jobs(jobs + g2 + ex + fresh)
+    results = run_jobs(jobs + g2 + ex + fresh, 6 if q else 12)
     recs = collect(ctx, results, stats)
     fails = judge(ctx, "all", recs)
     report(ctx, recs, fails)
